@@ -202,8 +202,27 @@ func sepRule(c *Ctx, r *Report, rule string, sdlForm bool) {
 			if l == nil {
 				continue
 			}
+			// a member of a map (the item is looked up under its key, or is the value of a range over a map) or an
+			// element of a list
+			keyed := false
+			for i, p := range wr.fn.Params {
+				if isEmptyIface(p.Type()) && i < len(call.Call.Args) {
+					switch t := call.Call.Args[i].(type) {
+					case *ssa.Lookup:
+						keyed = true
+					case *ssa.Extract:
+						if nx, ok := t.Tuple.(*ssa.Next); ok && !nx.IsString {
+							if rg, ok := nx.Iter.(*ssa.Range); ok {
+								if _, isMap := rg.X.Type().Underlying().(*types.Map); isMap {
+									keyed = true
+								}
+							}
+						}
+					}
+				}
+			}
 			nEm++
-			sepListEmitterIn(c, r, rule, pr, wr.fn, l, call, modes, nEm, true)
+			sepListEmitterIn(c, r, rule, pr, wr.fn, l, call, modes, nEm, keyed)
 		}
 	}
 	r.floor(rule, "emitters of item sequences in the value writer", nEm, 2)
